@@ -65,3 +65,10 @@ check("C10", "exploration", "runtime monitoring: exception-type/reason oracle an
       "exception class, carried reason and elapsed virtual time are checked; records with known but invalid ids must raise InvalidResponseError.",
       "Trusted: the model of adbd's behaviour after a failure (keeps acknowledging, drains, closes); unknown sync ids are out of scope.",
       "DESIGN.md section 4 C10")
+check("C11", "fault_enumeration", "runtime monitoring under a virtual clock: stall injection at every awaited device packet x stall kind x timeout grid; bounded-progress and timeout-argument monitors",
+      "Liveness is restated as bounded progress in virtual time. Every operation's fault-free run is recorded, then the device stops cooperating at each packet index in five "
+      "ways; the call must end with a timeout error (or the correct result) within K*(read+transport)(+total) virtual seconds and within a transport-call budget, and every "
+      "timeout handed to the transport must respect transport <= read <= total. Wall-clock plays no part in the verdict.",
+      "Trusted: the virtual clock substitution (module attribute `time` of adb_device / adb_device_async) and the cost model of the in-memory transport (a read that finds nothing "
+      "advances the clock by its timeout). Not decided: read_timeout_s=None, auth_timeout_s=None with a silent device.",
+      "DESIGN.md section 4 C11")
